@@ -95,17 +95,17 @@ theorem netWF_v6 {a : List Nat} (hl : a.length = 16) (hb : Bytes a) (l : Nat) : 
   ⟨by simp [hl, Fam.nbytes], hb⟩
 
 /-- prefix PDUs -/
-theorem process_prefix (c : Sess) (t : Table) (S : List Vrp) (f : Fold) (hi : TableInv t) (hr : R t S)
+theorem handle_prefix (c : Sess) (t : Table) (S : List Vrp) (f : Fold) (hi : TableInv t) (hr : R t S)
     (hl : Link c S f) (net : Net) (hn : NetWF net) (flags ml asn : Nat) :
-    ∃ S', StepOK c (process c t (.ipPrefix net flags ml asn)).1 (process c t (.ipPrefix net flags ml asn)).2 S' S ∧
-      Link (process c t (.ipPrefix net flags ml asn)).1 S'
+    ∃ S', StepOK c (handle c t (.ipPrefix net flags ml asn)).1 (handle c t (.ipPrefix net flags ml asn)).2 S' S ∧
+      Link (handle c t (.ipPrefix net flags ml asn)).1 S'
         (prefixFold f (vrpOf c.src net ml asn) (flags % 2 = 1)) := by
   by_cases hann : flags % 2 = 1
   · by_cases he : c.eod = true
     · -- announce in a serial round
       obtain ⟨hi', hr'⟩ := insert_spec hi hr hn ⟨ml, asn, c.src⟩
       refine ⟨sIns S (vrpOf c.src net ml asn), ?_, ?_⟩
-      · simp only [process, hann, he, if_true]
+      · simp only [handle, hann, he, if_true]
         refine ⟨hi', hr', ⟨fun x hx => ?_, fun x hx => ?_⟩, rfl, rfl, rfl⟩
         · rw [sIns_mem']
           constructor
@@ -117,7 +117,7 @@ theorem process_prefix (c : Sess) (t : Table) (S : List Vrp) (f : Fold) (hi : Ta
           · exact Or.inl h
           · exact Or.inr rfl
       · have hir : f.inReset = false := by rw [hl.inReset, he]; rfl
-        simp only [process, hann, he, if_true, prefixFold, hir, Bool.false_eq_true, if_false, decide_true]
+        simp only [handle, hann, he, if_true, prefixFold, hir, Bool.false_eq_true, if_false, decide_true]
         refine ⟨by simp [he], hl.pending, fun hok x => ?_, by simp, hl.vwf⟩
         rw [sIns_mem', sIns_mem', hl.installed hok]
         constructor
@@ -130,10 +130,10 @@ theorem process_prefix (c : Sess) (t : Table) (S : List Vrp) (f : Fold) (hi : Ta
     · -- announce inside a reset response: buffered
       have he' : c.eod = false := by simpa using he
       refine ⟨S, ?_, ?_⟩
-      · simp only [process, hann, he', if_true, Bool.false_eq_true, if_false]
+      · simp only [handle, hann, he', if_true, Bool.false_eq_true, if_false]
         exact ⟨hi, hr, Frame.refl _ _, rfl, rfl, rfl⟩
       · have hir : f.inReset = true := by rw [hl.inReset, he']; rfl
-        simp only [process, hann, he', if_true, Bool.false_eq_true, if_false, prefixFold, hir, decide_true]
+        simp only [handle, hann, he', if_true, Bool.false_eq_true, if_false, prefixFold, hir, decide_true]
         refine ⟨by simp [he'], fun hok x => ?_, hl.installed, by simp, ?_⟩
         · rw [sIns_mem', hl.pending hok]
           simp [vrpsOf]
@@ -146,7 +146,7 @@ theorem process_prefix (c : Sess) (t : Table) (S : List Vrp) (f : Fold) (hi : Ta
     · -- withdrawal in a serial round
       obtain ⟨hi', hr'⟩ := remove_spec hi hr hn ⟨ml, asn, c.src⟩
       refine ⟨sRem S (vrpOf c.src net ml asn), ?_, ?_⟩
-      · simp only [process, hann, he, if_true, if_false]
+      · simp only [handle, hann, he, if_true, if_false]
         refine ⟨hi', hr', ⟨fun x hx => ?_, fun x hx => ?_⟩, rfl, rfl, rfl⟩
         · rw [sRem_mem']
           constructor
@@ -154,7 +154,7 @@ theorem process_prefix (c : Sess) (t : Table) (S : List Vrp) (f : Fold) (hi : Ta
           · intro h; exact ⟨h, fun heq => hx (heq ▸ rfl)⟩
         · exact Or.inl ((sRem_mem' _ _ _).1 hx).1
       · have hir : f.inReset = false := by rw [hl.inReset, he]; rfl
-        simp only [process, hann, he, if_true, if_false, prefixFold, hir, Bool.false_eq_true, decide_false]
+        simp only [handle, hann, he, if_true, if_false, prefixFold, hir, Bool.false_eq_true, decide_false]
         refine ⟨by simp [he], hl.pending, fun hok x => ?_, by simp, hl.vwf⟩
         rw [sRem_mem', sRem_mem', hl.installed hok]
         constructor
@@ -163,48 +163,48 @@ theorem process_prefix (c : Sess) (t : Table) (S : List Vrp) (f : Fold) (hi : Ta
     · -- withdrawal inside a reset response: ignored by the code, outside the quantifier
       have he' : c.eod = false := by simpa using he
       refine ⟨S, ?_, ?_⟩
-      · simp only [process, hann, he', if_false, Bool.false_eq_true]
+      · simp only [handle, hann, he', if_false, Bool.false_eq_true]
         exact ⟨hi, hr, Frame.refl _ _, rfl, rfl, rfl⟩
       · have hir : f.inReset = true := by rw [hl.inReset, he']; rfl
-        simp only [process, hann, he', if_false, Bool.false_eq_true, prefixFold, hir, if_true, decide_false]
+        simp only [handle, hann, he', if_false, Bool.false_eq_true, prefixFold, hir, if_true, decide_false]
         exact ⟨by simp [he'], by simp, by simp, by simp, hl.vwf⟩
 
 /-- every conforming PDU: the client's step matches the fold's step -/
-theorem process_pdu (c : Sess) (t : Table) (S : List Vrp) (f : Fold) (hi : TableInv t) (hr : R t S)
+theorem handle_pdu (c : Sess) (t : Table) (S : List Vrp) (f : Fold) (hi : TableInv t) (hr : R t S)
     (hl : Link c S f) (p : Pdu) (hc : conforming p = true) (hw : PduWF p) :
-    ∃ S', StepOK c (process c t (msgOf p)).1 (process c t (msgOf p)).2 S' S ∧
-      Link (process c t (msgOf p)).1 S' (foldPdu c.src f p) := by
+    ∃ S', StepOK c (handle c t (msgOf p)).1 (handle c t (msgOf p)).2 S' S ∧
+      Link (handle c t (msgOf p)).1 S' (foldPdu c.src f p) := by
   cases p with
   | junk b => simp [conforming] at hc
   | p4 v fl l m a n =>
     obtain ⟨_, _, _, _, hla, hba, _⟩ := hw
-    exact process_prefix c t S f hi hr hl ⟨.v4, a, l⟩ (netWF_v4 hla hba l) fl m n
+    exact handle_prefix c t S f hi hr hl ⟨.v4, a, l⟩ (netWF_v4 hla hba l) fl m n
   | p6 v fl l m a n =>
     obtain ⟨_, _, _, _, hla, hba, _⟩ := hw
-    exact process_prefix c t S f hi hr hl ⟨.v6, a, l⟩ (netWF_v6 hla hba l) fl m n
+    exact handle_prefix c t S f hi hr hl ⟨.v6, a, l⟩ (netWF_v6 hla hba l) fl m n
   | cr v s =>
     refine ⟨S, ⟨hi, hr, Frame.refl _ _, rfl, rfl, rfl⟩, ?_⟩
-    simp only [msgOf, process, foldPdu]
+    simp only [msgOf, handle, foldPdu]
     exact ⟨hl.inReset, hl.pending, hl.installed, by simp, hl.vwf⟩
   | err v cd b =>
     refine ⟨S, ⟨hi, hr, Frame.refl _ _, rfl, rfl, rfl⟩, ?_⟩
-    simp only [msgOf, process, foldPdu]
+    simp only [msgOf, handle, foldPdu]
     exact ⟨hl.inReset, hl.pending, hl.installed, by simp, hl.vwf⟩
   | raw v ty s b =>
     refine ⟨S, ⟨hi, hr, Frame.refl _ _, rfl, rfl, rfl⟩, ?_⟩
-    simp only [msgOf, process, foldPdu]
+    simp only [msgOf, handle, foldPdu]
     exact ⟨hl.inReset, hl.pending, hl.installed, by simp, hl.vwf⟩
   | notify v s n =>
-    simp only [msgOf, process, foldPdu]
+    simp only [msgOf, handle, foldPdu]
     split
     · exact ⟨S, ⟨hi, hr, Frame.refl _ _, rfl, rfl, rfl⟩, ⟨hl.inReset, hl.pending, hl.installed, by simp, hl.vwf⟩⟩
     · exact ⟨S, ⟨hi, hr, Frame.refl _ _, rfl, rfl, rfl⟩, ⟨hl.inReset, hl.pending, hl.installed, by simp, hl.vwf⟩⟩
   | creset v =>
     refine ⟨S, ⟨hi, hr, Frame.refl _ _, rfl, rfl, rfl⟩, ?_⟩
-    simp only [msgOf, process, foldPdu]
+    simp only [msgOf, handle, foldPdu]
     exact ⟨by simp, by simp [vrpsOf], hl.installed, by simp, by simp⟩
   | eod v s n =>
-    simp only [msgOf, process, foldPdu]
+    simp only [msgOf, handle, foldPdu]
     by_cases he : c.eod = true
     · have hir : f.inReset = false := by rw [hl.inReset, he]; rfl
       simp only [he, Bool.not_true, Bool.false_eq_true, if_false, hir]
@@ -233,6 +233,25 @@ theorem process_pdu (c : Sess) (t : Table) (S : List Vrp) (f : Fold) (hi : Table
           · exact absurd hc h.2
           · exact h
 
+theorem handle_rx (c : Sess) (t : Table) (m : Msg) : (handle c t m).1.rx = c.rx := by
+  cases m <;> simp only [handle] <;> (repeat' split) <;> rfl
+
+theorem counted_msgOf (p : Pdu) (hc : conforming p = true) : counted (msgOf p) = cntPdu p := by
+  cases p <;> simp_all [conforming, msgOf, counted, cntPdu]
+
+/-- `state.update` + the match: the step of the fold, and one more counted PDU -/
+theorem process_pdu (c : Sess) (t : Table) (S : List Vrp) (f : Fold) (hi : TableInv t) (hr : R t S)
+    (hl : Link c S f) (p : Pdu) (hc : conforming p = true) (hw : PduWF p) :
+    ∃ S', StepOK c (process c t (msgOf p)).1 (process c t (msgOf p)).2 S' S ∧
+      Link (process c t (msgOf p)).1 S' (foldPdu c.src f p) ∧
+      (process c t (msgOf p)).1.rx = c.rx + cntPdu p := by
+  have hl0 : Link { c with rx := c.rx + counted (msgOf p) } S f :=
+    ⟨hl.inReset, hl.pending, hl.installed, hl.serial, hl.vwf⟩
+  obtain ⟨S', hok, hlink⟩ := handle_pdu { c with rx := c.rx + counted (msgOf p) } t S f hi hr hl0 p hc hw
+  refine ⟨S', ⟨hok.inv, hok.rel, hok.frame, hok.src, hok.buf, hok.done⟩, hlink, ?_⟩
+  show (handle _ t (msgOf p)).1.rx = _
+  rw [handle_rx, counted_msgOf p hc]
+
 /-! ## the PDU loop on a buffer that starts at a PDU boundary -/
 
 def encodeAll (ps : List Pdu) : List Nat := ps.flatMap Pdu.encode
@@ -245,6 +264,7 @@ structure CoreEq (c c' : Sess) : Prop where
   eod : c'.eod = c.eod
   serial : c'.serial = c.serial
   done : c'.done = c.done
+  rx : c'.rx = c.rx
 
 theorem Link.of_coreEq {c c' : Sess} {S : List Vrp} {f : Fold} (h : Link c S f) (e : CoreEq c c') :
     Link c' S f :=
@@ -255,8 +275,8 @@ theorem pump_incomplete (fuel : Nat) (c : Sess) (t : Table) (h : fromBytes c.buf
     (pump (fuel + 1) c t).2 = t ∧ CoreEq c (pump (fuel + 1) c t).1 := by
   simp only [pump, h]
   split
-  · exact ⟨rfl, ⟨rfl, rfl, rfl, rfl, rfl, rfl⟩⟩
-  · exact ⟨rfl, ⟨rfl, rfl, rfl, rfl, rfl, rfl⟩⟩
+  · exact ⟨rfl, ⟨rfl, rfl, rfl, rfl, rfl, rfl, rfl⟩⟩
+  · exact ⟨rfl, ⟨rfl, rfl, rfl, rfl, rfl, rfl, rfl⟩⟩
 
 theorem pump_msg (fuel : Nat) (c : Sess) (t : Table) {m : Msg} {len : Nat}
     (h : fromBytes c.buf = .msg m len) :
@@ -275,7 +295,8 @@ theorem pump_aligned (ps : List Pdu) : ∀ (c : Sess) (t : Table) (S : List Vrp)
       (pump fuel c t).1.src = c.src ∧ (pump fuel c t).1.done = false ∧
       (pump fuel c t).1.buf.length = (split ps c.buf.length).2.1 ∧
       (pump fuel c t).1.buf ++ rest = encodeAll (ps.drop (split ps c.buf.length).1.length) ∧
-      Link (pump fuel c t).1 S' ((split ps c.buf.length).1.foldl (foldPdu c.src) f) := by
+      Link (pump fuel c t).1 S' ((split ps c.buf.length).1.foldl (foldPdu c.src) f) ∧
+      (pump fuel c t).1.rx = c.rx + seenOf (split ps c.buf.length).1 := by
   induction ps with
   | nil =>
     intro c t S f rest fuel hi hr hl hd hb _ hfuel _
@@ -286,7 +307,7 @@ theorem pump_aligned (ps : List Pdu) : ∀ (c : Sess) (t : Table) (S : List Vrp)
     obtain ⟨ht, he⟩ := pump_incomplete fuel' c t hinc
     refine ⟨S, by rw [ht]; exact hi, by rw [ht]; exact hr, Frame.refl _ _, he.src, by rw [he.done]; exact hd,
       by rw [he.buf, hnil]; rfl, by rw [he.buf]; simpa [hnil, split_nil] using hb, ?_⟩
-    simpa [hnil, split_nil] using hl.of_coreEq he
+    exact ⟨by simpa [hnil, split_nil] using hl.of_coreEq he, by rw [he.rx]; simp [hnil, split_nil, seenOf]⟩
   | cons p ps ih =>
     intro c t S f rest fuel hi hr hl hd hb hwf hfuel hclean
     obtain ⟨fuel', rfl⟩ : ∃ k, fuel = k + 1 := ⟨fuel - 1, by omega⟩
@@ -301,7 +322,7 @@ theorem pump_aligned (ps : List Pdu) : ∀ (c : Sess) (t : Table) (S : List Vrp)
       rw [hs]
       refine ⟨S, by rw [ht]; exact hi, by rw [ht]; exact hr, Frame.refl _ _, he.src,
         by rw [he.done]; exact hd, by rw [he.buf, hnil]; rfl, by rw [he.buf]; simpa using hb, ?_⟩
-      simpa using hl.of_coreEq he
+      exact ⟨by simpa using hl.of_coreEq he, by rw [he.rx]; simp [seenOf]⟩
     · have hconf : conforming p = true := by
         cases hcf : conforming p with
         | true => rfl
@@ -326,7 +347,7 @@ theorem pump_aligned (ps : List Pdu) : ∀ (c : Sess) (t : Table) (S : List Vrp)
         rw [hs]
         refine ⟨S, by rw [ht]; exact hi, by rw [ht]; exact hr, Frame.refl _ _, he.src,
           by rw [he.done]; exact hd, by rw [he.buf], by rw [he.buf]; simpa using hb, ?_⟩
-        simpa using hl.of_coreEq he
+        exact ⟨by simpa using hl.of_coreEq he, by rw [he.rx]; simp [seenOf]⟩
       · -- a complete PDU is buffered
         have hge : pduLen p ≤ c.buf.length := by omega
         have hsplitB : c.buf = p.encode ++ c.buf.drop (pduLen p) := by
@@ -342,9 +363,9 @@ theorem pump_aligned (ps : List Pdu) : ∀ (c : Sess) (t : Table) (S : List Vrp)
           rw [hsplitB]; exact fromBytes_encode p hconf hwp _
         rw [pump_msg fuel' c t hdec]
         have hl0 : Link { c with buf := c.buf.drop (pduLen p) } S f :=
-          hl.of_coreEq ⟨rfl, rfl, rfl, rfl, rfl, rfl⟩ |> fun h =>
+          hl.of_coreEq ⟨rfl, rfl, rfl, rfl, rfl, rfl, rfl⟩ |> fun h =>
             ⟨h.inReset, h.pending, h.installed, h.serial, h.vwf⟩
-        obtain ⟨S1, hok, hl1⟩ := process_pdu { c with buf := c.buf.drop (pduLen p) } t S f hi hr hl0 p hconf hwp
+        obtain ⟨S1, hok, hl1, hrx1⟩ := process_pdu { c with buf := c.buf.drop (pduLen p) } t S f hi hr hl0 p hconf hwp
         have hrest : (c.buf.drop (pduLen p)) ++ rest = encodeAll ps := by
           have h2 : (c.buf ++ rest).drop (pduLen p) = c.buf.drop (pduLen p) ++ rest := by
             rw [List.drop_append_of_le_length hge]
@@ -354,7 +375,7 @@ theorem pump_aligned (ps : List Pdu) : ∀ (c : Sess) (t : Table) (S : List Vrp)
           rfl
         have hlen8 : 8 ≤ pduLen p := by
           have := (fromBytes_msg_len hdec).1; exact this
-        obtain ⟨S2, hi2, hr2, hf2, hsrc2, hdone2, hlen2, hbuf2, hl2⟩ :=
+        obtain ⟨S2, hi2, hr2, hf2, hsrc2, hdone2, hlen2, hbuf2, hl2, hrx2⟩ :=
           ih (process { c with buf := c.buf.drop (pduLen p) } t (msgOf p)).1
              (process { c with buf := c.buf.drop (pduLen p) } t (msgOf p)).2 S1 (foldPdu c.src f p) rest fuel'
              hok.inv hok.rel hl1 (by rw [hok.done]; exact hd) (by rw [hok.buf]; exact hrest) hwps
@@ -370,12 +391,13 @@ theorem pump_aligned (ps : List Pdu) : ∀ (c : Sess) (t : Table) (S : List Vrp)
               (split ps (c.buf.length - pduLen p)).2.2) := by
           simp [split, h0, hconf, hlt]
         rw [hs]
-        rw [hok.buf] at hlen2 hbuf2 hl2
-        simp only [List.length_drop] at hlen2 hbuf2 hl2
+        rw [hok.buf] at hlen2 hbuf2 hl2 hrx2
+        simp only [List.length_drop] at hlen2 hbuf2 hl2 hrx2
         rw [hok.src] at hf2 hsrc2 hl2
-        refine ⟨S2, hi2, hr2, hok.frame.trans hf2, hsrc2, hdone2, hlen2, ?_, ?_⟩
+        refine ⟨S2, hi2, hr2, hok.frame.trans hf2, hsrc2, hdone2, hlen2, ?_, ?_, ?_⟩
         · simpa using hbuf2
         · simpa using hl2
+        · rw [hrx2, hrx1]; simp only [seenOf]; omega
 
 /-! ## any input: the table stays a set, other caches are untouched, a finished session leaves nothing -/
 
@@ -480,10 +502,10 @@ theorem frame_sReset (src : Src) (S : List Vrp) (vs : List (Net × Nat × Nat)) 
      · exact Or.inr (mem_vrpsOf_cache h)⟩
 
 /-- one message of any kind -/
-theorem process_any (c : Sess) (t : Table) (S : List Vrp) (hi : TableInv t) (hr : R t S)
+theorem handle_any (c : Sess) (t : Table) (S : List Vrp) (hi : TableInv t) (hr : R t S)
     (hok : SessOK c) (hd : c.done = false) (m : Msg) (hm : MsgWF m) :
-    ∃ S', AnyOK c (process c t m).1 (process c t m).2 S S' ∧ (process c t m).1.done = false ∧
-      (process c t m).1.buf = c.buf := by
+    ∃ S', AnyOK c (handle c t m).1 (handle c t m).2 S S' ∧ (handle c t m).1.done = false ∧
+      (handle c t m).1.buf = c.buf := by
   have same : ∀ c' : Sess, c'.src = c.src → c'.buf = c.buf → c'.v = c.v → c'.done = c.done →
       ∃ S', AnyOK c c' t S S' ∧ c'.done = false ∧ c'.buf = c.buf := by
     intro c' h1 h2 h3 h4
@@ -491,7 +513,7 @@ theorem process_any (c : Sess) (t : Table) (S : List Vrp) (hi : TableInv t) (hr 
       by rw [h4, hd]; intro h; cases h⟩, by rw [h4]; exact hd, h2⟩
   cases m with
   | serialNotify s n =>
-    simp only [process]
+    simp only [handle]
     split
     · exact same _ rfl rfl rfl rfl
     · exact same _ rfl rfl rfl rfl
@@ -501,16 +523,16 @@ theorem process_any (c : Sess) (t : Table) (S : List Vrp) (hi : TableInv t) (hr 
   | errorReport cd => exact same _ rfl rfl rfl rfl
   | unsupported ty => exact same _ rfl rfl rfl rfl
   | cacheReset =>
-    exact ⟨S, ⟨hi, hr, Frame.refl _ _, rfl, ⟨hok.bytes, by simp [process]⟩,
-      by simp only [process]; rw [hd]; intro h; cases h⟩, hd, rfl⟩
+    exact ⟨S, ⟨hi, hr, Frame.refl _ _, rfl, ⟨hok.bytes, by simp [handle]⟩,
+      by simp only [handle]; rw [hd]; intro h; cases h⟩, hd, rfl⟩
   | endOfData s n =>
     by_cases he : c.eod = true
-    · have hp : process c t (.endOfData s n) = ({ c with serial := n }, t) := by simp [process, he]
+    · have hp : handle c t (.endOfData s n) = ({ c with serial := n }, t) := by simp [handle, he]
       rw [hp]
       exact same _ rfl rfl rfl rfl
     · have he' : c.eod = false := by simpa using he
-      have hp : process c t (.endOfData s n)
-          = ({ c with serial := n, eod := true, v := [] }, t.reset c.src c.v) := by simp [process, he']
+      have hp : handle c t (.endOfData s n)
+          = ({ c with serial := n, eod := true, v := [] }, t.reset c.src c.v) := by simp [handle, he']
       rw [hp]
       obtain ⟨hi', hr'⟩ := reset_spec hi hr c.src c.v hok.vwf
       exact ⟨_, ⟨hi', hr', frame_sReset _ _ _, rfl, ⟨hok.bytes, by simp⟩,
@@ -519,15 +541,15 @@ theorem process_any (c : Sess) (t : Table) (S : List Vrp) (hi : TableInv t) (hr 
     have hn : NetWF net := hm
     by_cases hann : fl % 2 = 1
     · by_cases he : c.eod = true
-      · have hp : process c t (.ipPrefix net fl ml asn) = (c, t.insert net ⟨ml, asn, c.src⟩) := by
-          simp [process, hann, he]
+      · have hp : handle c t (.ipPrefix net fl ml asn) = (c, t.insert net ⟨ml, asn, c.src⟩) := by
+          simp [handle, hann, he]
         rw [hp]
         obtain ⟨hi', hr'⟩ := insert_spec hi hr hn ⟨ml, asn, c.src⟩
         exact ⟨_, ⟨hi', hr', frame_sIns S (vrpOf c.src net ml asn), rfl, hok,
           by rw [hd]; intro h; cases h⟩, hd, rfl⟩
       · have he' : c.eod = false := by simpa using he
-        have hp : process c t (.ipPrefix net fl ml asn) = ({ c with v := c.v ++ [(net, ml, asn)] }, t) := by
-          simp [process, hann, he']
+        have hp : handle c t (.ipPrefix net fl ml asn) = ({ c with v := c.v ++ [(net, ml, asn)] }, t) := by
+          simp [handle, hann, he']
         rw [hp]
         refine ⟨S, ⟨hi, hr, Frame.refl _ _, rfl, ⟨hok.bytes, ?_⟩, by simp only; rw [hd]; intro h; cases h⟩, hd, rfl⟩
         intro e he
@@ -536,15 +558,22 @@ theorem process_any (c : Sess) (t : Table) (S : List Vrp) (hi : TableInv t) (hr 
         · exact hok.vwf e he
         · exact hn
     · by_cases he : c.eod = true
-      · have hp : process c t (.ipPrefix net fl ml asn) = (c, t.remove net ⟨ml, asn, c.src⟩) := by
-          simp [process, hann, he]
+      · have hp : handle c t (.ipPrefix net fl ml asn) = (c, t.remove net ⟨ml, asn, c.src⟩) := by
+          simp [handle, hann, he]
         rw [hp]
         obtain ⟨hi', hr'⟩ := remove_spec hi hr hn ⟨ml, asn, c.src⟩
         exact ⟨_, ⟨hi', hr', frame_sRem c.src S _ rfl, rfl, hok, by rw [hd]; intro h; cases h⟩, hd, rfl⟩
       · have he' : c.eod = false := by simpa using he
-        have hp : process c t (.ipPrefix net fl ml asn) = (c, t) := by simp [process, hann, he']
+        have hp : handle c t (.ipPrefix net fl ml asn) = (c, t) := by simp [handle, hann, he']
         rw [hp]
         exact same _ rfl rfl rfl rfl
+
+theorem process_any (c : Sess) (t : Table) (S : List Vrp) (hi : TableInv t) (hr : R t S)
+    (hok : SessOK c) (hd : c.done = false) (m : Msg) (hm : MsgWF m) :
+    ∃ S', AnyOK c (process c t m).1 (process c t m).2 S S' ∧ (process c t m).1.done = false ∧
+      (process c t m).1.buf = c.buf := by
+  obtain ⟨S', h, h1, h2⟩ := handle_any { c with rx := c.rx + counted m } t S hi hr ⟨hok.bytes, hok.vwf⟩ hd m hm
+  exact ⟨S', ⟨h.inv, h.rel, h.frame, h.src, h.ok, h.cleared⟩, h1, h2⟩
 
 theorem finish_any (c : Sess) (t : Table) (S : List Vrp) (hi : TableInv t) (hr : R t S) (hok : SessOK c) :
     AnyOK c (finish c t).1 (finish c t).2 S (sDrop S c.src) ∧ (finish c t).1.done = true := by
